@@ -702,9 +702,15 @@ def r9(ctx, facts):
                    "Batch::do_serialize's check for surplus value lists sees None, and a batch with more value lists than statements is sent truncated instead of refused" % meth, b.span)
 
 
+def r10(ctx, facts):
+    """shared with C18 (stated there): a batch the driver rebuilds keeps the caller's configuration, so the BATCH frame carries the caller's timestamp and tracing flag"""
+    from .c18 import r6 as c18_r6
+    c18_r6(ctx, facts)
+
+
 def check(ctx):
     facts = inline_view(ctx.facts("default"))
-    for fn in (r1_r2, r6, r4, r5, r7, r8, r9):
+    for fn in (r1_r2, r6, r4, r5, r7, r8, r9, r10):
         try:
             fn(ctx, facts)
         except AnchorLost as ex:
